@@ -204,7 +204,7 @@ TRUSTED = [
 
 def run_prop(chk: Check, prop: str) -> int:
     proof = proof_stage(prop, "driver_c03", chk.thorough) if not getattr(chk, "skip_proof", False) else None
-    n = chk.budget(8000, 120000)
+    n = chk.budget(8000, 95000)
     cases = [("corpus:" + name, c) for name, c in corpus_cases(prop)]
     ncorpus = len(cases)
     nnest = 0
@@ -219,6 +219,14 @@ def run_prop(chk: Check, prop: str) -> int:
     for c in txhist.pattern_cases(None if chk.thorough else chk.rng, 3000):
         cases.append(("delete-match", c))
         npat += 1
+    nmulti = 0
+    for c in txhist.multi_backend_cases():
+        cases.append(("multi-backend", c))
+        nmulti += 1
+    nfan = 0
+    for c in txhist.fanout_cases():
+        cases.append(("fan-out", c))
+        nfan += 1
     nctl = 0
     for c in txhist.control_cases():
         cases.append(("control-state", c))
@@ -283,6 +291,21 @@ def run_prop(chk: Check, prop: str) -> int:
         "transaction_buffer_rule": "D45: per mode one transaction writing 1001 distinct keys and one writing 1100 (re-reading an early key half-way), the "
                                    "oldest / a middle / the newest write read back from inside (C04) and every key read after commit (C03), against "
                                    "the same writes applied directly; real code only; a regression is reported under signature " + BUFFER_SIGNATURE,
+        "multi_backend_cases": nmulti,
+        "multi_backend_rule": "prefix-routed caches: configs facade2 (keys kb1, kb2 on a second backend) and facade3 (kb1 and kb2 each on a backend of its own) "
+                              "are 20% / 10% of the generated cases, so one transaction holds a TransactionBackend per touched backend; plus the enumerated "
+                              "sub-space 2 configs x 3 modes x 4 scripts touching several backends (one of them only by a read) x 2 stores x {commit, exception, "
+                              "explicit commit mid-body and more writes} (144 cases, both tiers). The model has ONE store: the observer shows the union of the "
+                              "backends' stores (no key is on two backends; the serializable lock, held once per touched backend, is shown once with the earliest "
+                              "deadline), and a pattern command - routed to one backend by the text of its pattern - is only issued with patterns whose matching "
+                              "keys all live on that backend. A commit has to apply the writes of every backend and leave no lock key on any",
+        "fan_out_cases": nfan,
+        "fan_out_rule": "commands issued from CHILD tasks that the body awaits inside the block (`fan gather|task|group c1 | c2 | ...`: asyncio.gather, "
+                        "await asyncio.create_task(...), asyncio.TaskGroup): about 10% of the generated body events fan 1-3 commands out; plus the enumerated "
+                        "sub-space 3 modes x 3 ways of fanning out x {commit, exception, cancellation, explicit rollback followed by more child writes} x 2 stores "
+                        "(72 cases, both tiers): child writes after a parent write, parent reads of child writes, child reads and conditional writes, a child "
+                        "delete_match and scan, child commands after the block. The children run one at a time, so every child command is an ordinary line of "
+                        "the trace: the outside observer probes after it (a child write must stay invisible), the end of the block must commit / roll it back",
         "control_state_cases": nctl,
         "control_state_rule": "cache.disable(...) / cache.enable(...) are events of the programs (12% of the blocks are preceded by one, 2% of the "
                               "events inside a block are one; sets: a bulk command alone - delete_many, set_many -, a single command alone, both, "
